@@ -188,7 +188,11 @@ func runBounded(prop, repo, verif, tier string, seed int) (viol []string, knownL
 				}
 				if serves[fn] {
 					fmt.Println("  " + l)
-					viol = append(viol, fmt.Sprintf("VIOLATION property=%s replay=%s", prop, rp))
+					v := fmt.Sprintf("VIOLATION property=%s replay=%s", prop, rp)
+					if strings.HasSuffix(strings.TrimSpace(l), "no-failing-input-found") {
+						v += " no-failing-input-found"
+					}
+					viol = append(viol, v)
 				}
 			case strings.HasPrefix(l, "KNOWN-FINDING: property="+prop+" "):
 				knownL = append(knownL, l)
